@@ -1,6 +1,7 @@
 import Dtr.Proofs.LexClean
 import Dtr.Proofs.Radix
 import Dtr.Model.Bind
+import Dtr.Proofs.LineInsert
 /-!
 # C20 — layout is irrelevant: blank space, comments and literal radix do not change rows
 
@@ -11,9 +12,11 @@ comment in front of a line end, leaves the list of (kind, text) pairs, hence of 
 unchanged; (2) renderings of a number in the radices the lexer knows denote the same abstract token;
 (3) the parse outcome and the bound test are functions of the abstract token list.
 
-Partial: the clause "inserting blank or comment-only *lines* shifts `line` by the number of lines
-inserted above the row and changes nothing else" changes the token list (extra `Eol` tokens) and is
-covered by the correspondence check's layout suite, not by a theorem; so is the header line.
+(4) a blank or comment-only *line* inserted at any line start behind the header adds exactly one `Eol`
+token behind an `Eol` (or at the very start of the body), and the parser — shown by a relational pass
+over its model, `Proofs/ParserEol` — then returns the same statements up to their `line` fields, the
+same recorded names, or fails as before (`C20_blank_line_insert`); the `line` of every row is given, for
+both texts, by `C19_source_line`.  Not covered by a theorem: blank space inside the header line itself.
 -/
 namespace Dtr
 
@@ -167,5 +170,66 @@ example : TokenBoundary ['1', ' ', '0', '\n', 'l', 'e', 't', ' ', 'a', '=', '2',
     TokenBoundary ['1', ' ', '0', '\n', 'l', 'e', 't', ' ', 'a', '=', '2', ';'] 9 ∧
     ¬ TokenBoundary ['1', ' ', '0', '\n', 'l', 'e', 't', ' ', 'a', '=', '2', ';'] 5 := by
   refine ⟨?_, ?_, ?_⟩ <;> (unfold TokenBoundary; decide +kernel)
+
+/-- what a run depends on, without the line numbers: statements with `line` erased, header names, recorded names -/
+def Parsed.coreE (p : Parsed) : List Stmt × List String × List String × List String × List (String × Expr) :=
+  (Stmts.erase p.stmts, p.signals, p.expIn.map (·.1), p.reads.map (·.1), p.virt.map (fun v => (v.1, v.2.2)))
+
+/-- **Blank and comment-only lines**: let the source be a header part `H` followed by the body `L ++ R`
+(the header parser hands back exactly `L ++ R`), where `L` is empty or ends in a newline — so `R` starts at
+a line start — and let `w` be blanks optionally followed by a `#` comment.  Inserting the line `w ++ "\n"`
+in front of `R` leaves the verdict unchanged, and an accepted test has the same statements up to their
+`line` fields, the same header and the same recorded reads, clock columns and virtual signals — for every
+text, well-formed or not.  (Iterated: any number of inserted lines, anywhere behind the header.) -/
+theorem C20_blank_line_insert (H L R w : Str) (names : List (String × Nat × Nat)) (line off : Nat)
+    (hH : parseHeaderAll (H ++ (L ++ R)) = .ok names line off (L ++ R))
+    (hL : L = [] ∨ L.getLast? = some '\n') (hw : BlankLine w) :
+    (∃ p p', parseTest (H ++ (L ++ R)) = .ok p ∧ parseTest (H ++ (L ++ (w ++ '\n' :: R))) = .ok p' ∧
+      p'.coreE = p.coreE) ∨
+    ((∀ p, parseTest (H ++ (L ++ R)) ≠ .ok p) ∧ (∀ p, parseTest (H ++ (L ++ (w ++ '\n' :: R))) ≠ .ok p)) := by
+  -- the header
+  obtain ⟨h, hs, hall⟩ := parseHeader_indep _ _ _ _ _ _ _ _ _ hH
+  have hh : H = h := List.append_cancel_right hs
+  subst hh
+  have hH' : parseHeaderAll (H ++ (L ++ (w ++ '\n' :: R))) = .ok names line (off) (L ++ (w ++ '\n' :: R)) :=
+    hall _ _ (Nat.lt_succ_self _)
+  -- lexer and parser
+  obtain ⟨P, S, hP, h1, h2⟩ := abs_insert_line L R w off off hL hw
+  have hsame := parseBody_eol (names.map (·.1)) line P S hP
+  unfold parseTest
+  rw [hH, hH']
+  simp only
+  rw [h1, h2]
+  rcases hsame with ⟨b, st, b', st', e1, e2, hb, hsim⟩ | ⟨n1, n2⟩
+  · left
+    rw [e1, e2]
+    refine ⟨_, _, rfl, rfl, ?_⟩
+    simp only [Parsed.coreE, Prod.mk.injEq, List.map_map, Function.comp_def]
+    refine ⟨hb, trivial, ?_, ?_, ?_⟩
+    · have := hsim.expIn; simpa [List.map_map, Function.comp_def] using this
+    · have := hsim.reads; simpa [List.map_map, Function.comp_def] using this
+    · have := hsim.virt; simpa [List.map_map, Function.comp_def] using this
+  · right
+    constructor
+    · intro p hp
+      cases hr : parseBody (names.map (·.1)) line (P ++ S) with
+      | ok b st => exact n1 b st hr
+      | err t l => rw [hr] at hp; cases hp
+      | panic m => rw [hr] at hp; cases hp
+      | fuel => rw [hr] at hp; cases hp
+    · intro p hp
+      cases hr : parseBody (names.map (·.1)) line (P ++ .sym .Eol :: S) with
+      | ok b st => exact n2 b st hr
+      | err t l => rw [hr] at hp; cases hp
+      | panic m => rw [hr] at hp; cases hp
+      | fuel => rw [hr] at hp; cases hp
+
+/-- the hypotheses are met: a comment line inserted in front of the second row of a two-row test -/
+example : (match parseHeaderAll ("A B\n".toList ++ ("0 1\n".toList ++ "1 0\n".toList)) with
+      | .ok names line off rest => names.map (·.1) == ["A", "B"] && line == 2 && off == 4 &&
+          rest == "0 1\n".toList ++ "1 0\n".toList
+      | .err _ => false) = true ∧
+    ("0 1\n".toList = [] ∨ "0 1\n".toList.getLast? = some '\n') ∧ BlankLine "  # note".toList := by
+  refine ⟨by decide +kernel, Or.inr (by decide), ⟨"  ".toList, by decide, Or.inr ⟨" note".toList, by decide, by decide⟩⟩⟩
 
 end Dtr
